@@ -204,6 +204,10 @@ func c3BigRecords(models, dig string) (string, string) {
 
 // c3BigCase: line = "big <nparts> <seed> <mode of part 0> ... <mode of part nparts-1>"
 func c3BigCase(t *testing.T, out *zzverif.Out, line string) {
+	if !c3Begin(out, line) {
+		return
+	}
+	defer out.Flush()
 	f := strings.Fields(line)
 	nparts, _ := strconv.Atoi(f[1])
 	seed, _ := strconv.ParseUint(f[2], 10, 64)
